@@ -17,7 +17,8 @@ emit :: (c: i32) { putchar(c); }
 
 def render_fn(name, prog):
     """tokens -> Capy function text"""
-    out = ["%s :: () -> ?i32 {" % name, "    one := 1;", "    nilv : ?i32 = nil;"]
+    out = ["%s :: () -> ?i32 {" % name, "    one := 1;", "    nilv : ?i32 = nil;",
+           "    okv : ?i32 = 5;"]
     stack = []  # (kind, pos)
     ind = 1
 
@@ -51,6 +52,8 @@ def render_fn(name, prog):
             line("}")
             if kind in ("blk", "loop"):
                 line("emit(%d);" % (96 + pos))
+        elif t == "tryok":
+            line("okv.try;")
         elif t == "jmp":
             a, b = tk["a"], tk["b"]
             if a == "break":
@@ -107,6 +110,8 @@ def short(prog):
             return "if%s{" % (tk["a"] or "")
         if t == "end":
             return "}"
+        if t == "tryok":
+            return "try-ok"
         return tk["a"] + ("`a" if tk["b"] == 1 else "")
     return " ".join(one(t) for t in prog)
 
